@@ -299,6 +299,9 @@ def run(ctx):
                        'under all delivery orders and free runs, equal to the specification',
                        'ConstructPatches is modelled for manifests with distinct requirement names, no new keys, vulnerabilities without subgraphs',
                        'version grammar of the universes: <major>.0.0 parses, ^x / ~x / ranges / 1x do not (asserted against deps.dev npm semver at generator start)',
+                       'ticker lifetime assumed by C16_ticker_guarded: one ticker goroutine per RunFS call, signalled by close(quit) but NOT joined, one walkContext shared by all roots of a Run: '
+                       'an access made by RunFS itself (even before its own `go` statement) is therefore concurrent with the PREVIOUS root\'s ticker and gets no happens-before exemption; the only '
+                       'exempt writes are the keys of the walkContext literal in InitWalkContext (the object is not shared with any goroutine yet)',
                        'ticker table: accesses are syntactic (x.f with x a walkContext receiver/parameter/local); aliasing through other pointers is not tracked']
     ctx.rule = ('combined client: a FRESH resolution.CombinedNativeClient per case used by 2..4 goroutines, per ecosystem (npm via a project .npmrc, Maven, PyPI), first calls simultaneous or '
                 'staggered by 300 us, 4 mixes of Versions / Version / Requirements / MatchingVersions per configuration (72 cases quick, x3 thorough; each also under -race, one case at a time), '
@@ -319,7 +322,9 @@ def run(ctx):
                 'hypothesis violations) and of N random universes (cap per universe); cache: every interleaving of start-caller / release-fetch-ok / release-fetch-err for 2..4 callers over '
                 '1..2 keys (first caller on key 0), plus one SetMap (3 maps) + GetMap anywhere (quick: <=3 callers, thorough: 4); race: the same streams under -race and whole scans '
                 '(one process each) of 20..27 files in 3..5 directories over an in-memory FS that is slow (~3 s in total) at ONE site kind per scan — directory Open, every ReadDir(1), '
-                '.gitignore Open, Stat, file Open, Extract — as whole-tree scans (ticker goroutine) and requested-path scans (control), plus the legacy every-Open-slow scan over walkcase.MemFS; '
+                '.gitignore Open, Stat, file Open, Extract — as whole-tree scans (ticker goroutine) and requested-path scans (control), plus the legacy every-Open-slow scan over walkcase.MemFS, '
+                'plus multi-root scans (2..3 roots, the last Extract of every non-last root outlasts the status interval, a user-installed log.Logger blocks 0.7..1.2 s per status line, so the '
+                'previous root\'s un-joined ticker is still inside printStatus when RunFS starts on the next root); '
                 'when the access table names an unguarded access, extra scans at the site kinds next to it. non-trivial = patches case with >=3 deliveries, cache case with a waiter or a failed fetch; distinct = distinct case lines')
     # 1. regenerate the access table from what the source says NOW
     targs = ['-out', lib.LEAN + '/Scalibr/Gen/Ticker.lean']
@@ -605,8 +610,10 @@ def run(ctx):
         for c in conflicts:
             mm = re.search(r'walker: \w+ in (\S+) line', c)
             if mm:
+                # RunFS / runOnScanRoot / Run touch the context BETWEEN walks: what they meet is the previous root's ticker, which is signalled but never joined
                 adjacent += {'handleFile': ['gitignore', 'dopen', 'readdir', 'stat'], 'runExtractor': ['fopen', 'extract'],
-                             'postHandleFile': ['readdir', 'dopen']}.get(mm.group(1), SITES)
+                             'postHandleFile': ['readdir', 'dopen'], 'RunFS': ['multiroot'], 'runOnScanRoot': ['multiroot'], 'Run': ['multiroot'],
+                             'UpdateScanRoot': ['multiroot']}.get(mm.group(1), SITES + ['multiroot'])
         order = sorted(SITES, key=lambda k: (k not in adjacent, SITES.index(k)))
         scans = []
         if ctx.replay:
@@ -620,7 +627,10 @@ def run(ctx):
             for k, s_ in enumerate(scan_seeds[:{'quick': 1, 'thorough': 3}[ctx.tier]]):
                 for site in order:
                     scans += [(s_, site, 'tree'), (s_, site, 'paths')]
-            for site in [x for x in order if x in adjacent]:      # the table names an unguarded access: more scans next to it
+            # always: scans over several roots (a non-last root's walk outlasts the status interval inside its LAST Extract, a slow logger keeps
+            # that root's ticker inside printStatus while the next root's RunFS starts)
+            scans += [(ctx.seed * 100 + r, 'multiroot', 'tree') for r in range({'quick': 1, 'thorough': 3}[ctx.tier])]
+            for site in [x for x in order + ['multiroot'] if x in adjacent]:      # the table names an unguarded access: more scans next to it
                 scans += [(ctx.seed * 100 + 50 + r, site, 'tree') for r in range(2)]
         e = lib.goenv()
         e['GORACE'] = 'halt_on_error=0 exitcode=66'
